@@ -218,7 +218,7 @@ def main(tier, seed):
     e.obligation("each-member-trained-only-on-its-own-bootstrap-indices,-each-position-at-most-once-per-epoch", own_rows, site="train_ensemble:member-uses-only-own-bootstrap-indices")
 
     # ---- plan evaluation
-    ns, npart, H, do = 2, 2, 2, 2
+    ns, npart, H, do = 2, 3, 2, 2  # all four sizes different where it matters: a reduction over the wrong axis must not cancel out
     a0 = jnp.asarray(rng.normal(size=(ns, H, 1)), dtype=jnp.float32)
     t0 = jnp.asarray(rng.normal(size=(ns, npart, H + 1, do)), dtype=jnp.float32)
 
